@@ -89,3 +89,29 @@ package blockstore
 //@   call[store.Resume#0] assert version_checked [C12]: rverr == nil
 //@   call[store.ResumableVersion#0] assert args [C12]: ref(arg0) == ref(f) && arg1 == rwbs.opts.WriteAsCarV1
 //@   call[ReadWrite.initWithRoots#0] assert args [C01,C05]: arg1 == !rwbs.opts.WriteAsCarV1 && arg2 == roots
+
+//@ func (*ReadWrite).AllKeysChan
+//@   requires unlocked [C08]: held(b.ronly.mu) == 0
+//@   ghost after go[0]: held(b.ronly.mu) := 3
+//@   ensures released_or_handed_over [C08]: held(b.ronly.mu) == 0 || held(b.ronly.mu) == 3
+//@   closure[0]
+//@     requires index_guarded [C08]: held(b.ronly.mu) >= 1
+//@     call[InsertionIndex.ForEachCid#0] assert walks_index_under_lock [C08]: held(b.ronly.mu) >= 1
+//@   end
+
+//@ func (*ReadOnly).AllKeysChan
+//@   requires unlocked [C08]: held(b.mu) == 0
+//@   ghost after go[0]: held(b.mu) := 3
+//@   ensures released_or_handed_over [C08]: held(b.mu) == 0 || held(b.mu) == 3
+//@   ensures closed_err [C04]: old(b.closed) ==> err == errClosed && held(b.mu) == 0
+//@   call[carv1.HeaderSize#0] assume canonical_header: rawlen(arg0) == enclen(arg0)
+//@   closure[0]
+//@     requires lock_handed_over [C08]: held(b.mu) == 1
+//@     requires reader [C07]: rdr != nil && objinv(rdr)
+//@     let length, lerr := call[varint.ReadUvarint#0]
+//@     let here, herr := call[Seeker.Seek#0]
+//@     loop[0] invariant lock_kept [C08]: held(b.mu) == 1
+//@     loop[0] invariant reader_ok [C07]: objinv(rdr)
+//@     call[Seeker.Seek#1] assert next_section_start [C07]: arg1 == wrap_s64(here + wrap_s64(length)) && arg2 == 0 && here == athead(0, pos(rdr)) - sbase(rdr) + vsize(length)
+//@     ensures released [C08]: held(b.mu) == 0
+//@   end
